@@ -101,3 +101,7 @@ pub fn catch<R>(f: impl FnOnce() -> R) -> Result<R, String> {
 pub fn quiet_panics() {
     std::panic::set_hook(Box::new(|_| {}));
 }
+
+pub mod rec;
+pub mod runner;
+pub mod workers;
